@@ -57,11 +57,27 @@ def jsonval(v):
     return ["other", esc(json.dumps(v, sort_keys=True))]
 
 
+_STYLE = [0]
+
+
 def json_obs(obj):
+    """the four documents; the two options are passed in rotating calling conventions (keywords in either order, positionally,
+    mixed, as 0/1): what the caller means by sort / minimal is fixed by the documented signature as_json(sort=False, minimal=False)"""
     out = {}
     for sort in (False, True):
         for minimal in (False, True):
-            d = obj.as_json(sort=sort, minimal=minimal)
+            _STYLE[0] += 1
+            st = _STYLE[0] % 5
+            if st == 0:
+                d = obj.as_json(sort=sort, minimal=minimal)
+            elif st == 1:
+                d = obj.as_json(sort, minimal)
+            elif st == 2:
+                d = obj.as_json(sort, minimal=minimal)
+            elif st == 3:
+                d = obj.as_json(minimal=minimal, sort=sort)
+            else:
+                d = obj.as_json(**{"sort": sort, "minimal": minimal}) if (sort or minimal) else obj.as_json()
             txt = json.dumps(d)
             try:
                 from collections import OrderedDict
@@ -87,7 +103,11 @@ def observe(obj, ver, with_json=True, order=None):
              lambda: o.__setitem__("clean", esc(obj.clean_vector())),
              lambda: o.__setitem__("rh", esc(obj.rh_vector()))]
     if ver != "2":
-        calls.append(lambda: o.__setitem__("clean_np", esc(obj.clean_vector(output_prefix=False))))
+        _STYLE[0] += 1
+        if _STYLE[0] % 2:
+            calls.append(lambda: o.__setitem__("clean_np", esc(obj.clean_vector(output_prefix=False))))
+        else:
+            calls.append(lambda: o.__setitem__("clean_np", esc(obj.clean_vector(False))))
     if ver != "4":
         calls.append(lambda: o.__setitem__("tv", esc(obj.temporal_vector())))
         calls.append(lambda: o.__setitem__("ev", esc(obj.environmental_vector())))
